@@ -344,8 +344,8 @@ func c28ModGrid(offs []int64, ats []c28Mods) []c28Mods {
 func c28Cases(r *vx.Run) []c28Case {
 	th := r.Thorough()
 	evalT := []int64{0, 999, 1000, 1001, 1999, 2000, 2001, 2999, 3000, 3001, 4000, 5000}
-	lookbacks := vx.Pick(r, []int64{1000, 2000}, []int64{1000, 2000, 1001, 999})
-	ranges := vx.Pick(r, []int64{1000, 1001, 2000}, []int64{1000, 1001, 2000, 999, 3000})
+	lookbacks := vx.Pick(r, []int64{1000, 2000}, []int64{1000, 2000, 1001})
+	ranges := vx.Pick(r, []int64{1000, 1001, 2000}, []int64{1000, 1001, 2000, 999})
 	offs := vx.Pick(r, []int64{0, 1000, -1000, 1}, []int64{0, 1000, -1000, 1, -1, 2000, -2001})
 	ats := vx.Pick(r,
 		[]c28Mods{{}, {At: 1, AtT: 1000}, {At: 1, AtT: 2001}, {At: 2}},
@@ -384,7 +384,7 @@ func c28Cases(r *vx.Run) []c28Case {
 	}
 	sqR := vx.Pick(r, []int64{1000, 2000, 2500}, []int64{1000, 2000, 2500, 1001})
 	sqS := vx.Pick(r, []int64{1000, 500, 0}, []int64{1000, 500, 0, 1001, 2000})
-	sqT := vx.Pick(r, []int64{0, 1000, 2001, 3000}, []int64{0, 1000, 1999, 2000, 2001, 3000, 3001, 4001})
+	sqT := vx.Pick(r, []int64{0, 1000, 2001, 3000}, []int64{0, 1000, 1999, 2001, 3000, 4001})
 	for _, form := range []string{"subq", "subqp", "subq_cot", "cot_subq"} {
 		for _, m1 := range m1s {
 			if form == "subq" && m1 != (c28Mods{}) {
@@ -570,41 +570,48 @@ func TestVerifC28(t *testing.T) {
 	var evals, queries, nonEmpty atomic.Int64
 	var agg [5]atomic.Int64
 	wide := pr_Wide(stor)
-	r.ParallelN(int64(2*len(cases)), func(i2 int64) {
-		i := i2 / 2
+	r.ParallelN(int64(len(cases)), func(i int64) {
 		c := cases[i]
-		c.Wide = i2%2 == 1
-		var res pr_Result
-		if c.Wide {
-			res = c28Run(c, eng, wide)
-		} else {
-			res = c28Run(c, eng, stor)
-		}
-		queries.Add(1)
-		if res.Err != nil {
-			r.Violation("query-error", fmt.Sprintf("%s: %v", c.expr(), res.Err), c28Replay{Case: c, Query: c.expr(), Series: data[0]})
-			return
-		}
-		if res.Dup != "" {
-			r.Violation("duplicate-series-in-result", fmt.Sprintf("%s: series %s twice", c.expr(), res.Dup), c28Replay{Case: c, Query: c.expr(), Series: data[0]})
+		// the same query against the storage as is and against the wrapper that returns all samples
+		var ress [2]pr_Result
+		var cs [2]c28Case
+		for m := 0; m < 2; m++ {
+			cs[m] = c
+			cs[m].Wide = m == 1
+			if m == 1 {
+				ress[m] = c28Run(c, eng, wide)
+			} else {
+				ress[m] = c28Run(c, eng, stor)
+			}
+			queries.Add(1)
+			if ress[m].Err != nil {
+				r.Violation("query-error", fmt.Sprintf("%s: %v", c.expr(), ress[m].Err), c28Replay{Case: cs[m], Query: c.expr(), Series: data[0]})
+				return
+			}
+			if ress[m].Dup != "" {
+				r.Violation("duplicate-series-in-result", fmt.Sprintf("%s: series %s twice", c.expr(), ress[m].Dup), c28Replay{Case: cs[m], Query: c.expr(), Series: data[0]})
+			}
 		}
 		var st c28Stats
-		seen, ne := 0, 0
+		var seen [2]int
+		ne := 0
 		outcomes := map[uint64]struct{}{}
 		for k := range data {
 			se := &data[k]
 			exp := c.expect(se.Samples, &st)
-			got, present := res.Series[se.ID]
-			if present {
-				seen++
-			}
-			if d := c28Compare(exp, got); d != "" {
-				sig := c.class() + "-" + d
-				if k := c.knownDefect(); k != "" {
-					sig = k
+			for m := 0; m < 2; m++ {
+				got, present := ress[m].Series[se.ID]
+				if present {
+					seen[m]++
 				}
-				r.Violation(sig, fmt.Sprintf("%s (lookback %s) over %s: expected %s got %s", c.expr(), pr_Dur(c.L), vx.J(se.Samples), pr_PointsString(exp), pr_PointsString(got)),
-					c28Replay{Case: c, Query: c.expr(), Series: *se})
+				if d := c28Compare(exp, got); d != "" {
+					sig := cs[m].class() + "-" + d
+					if k := c.knownDefect(); k != "" {
+						sig = k
+					}
+					r.Violation(sig, fmt.Sprintf("%s (lookback %s, storage ignores bounds: %v) over %s: expected %s got %s", c.expr(), pr_Dur(c.L), cs[m].Wide, vx.J(se.Samples), pr_PointsString(exp), pr_PointsString(got)),
+						c28Replay{Case: cs[m], Query: c.expr(), Series: *se})
+				}
 			}
 			if len(exp) > 0 {
 				ne++
@@ -615,23 +622,26 @@ func TestVerifC28(t *testing.T) {
 				}
 			}
 		}
-		nonEmpty.Add(int64(ne))
-		if seen != len(res.Series) {
-			r.Violation("unknown-series-in-result", fmt.Sprintf("%s: %d result series, %d known", c.expr(), len(res.Series), seen), c28Replay{Case: c, Query: c.expr(), Series: data[0]})
+		nonEmpty.Add(int64(2 * ne))
+		for m := 0; m < 2; m++ {
+			if seen[m] != len(ress[m].Series) {
+				r.Violation("unknown-series-in-result", fmt.Sprintf("%s: %d result series, %d known", c.expr(), len(ress[m].Series), seen[m]), c28Replay{Case: cs[m], Query: c.expr(), Series: data[0]})
+			}
+			if len(ress[m].Series) > 0 {
+				r.Distinct("distinct_nontrivial", c.expr()+"|"+fmt.Sprint(c.L, c.T, c.Start, c.End, c.Step, m))
+			}
 		}
-		if len(res.Series) > 0 {
-			r.Distinct("distinct_nontrivial", c.expr()+"|"+fmt.Sprint(c.L, c.T, c.Start, c.End, c.Step, c.Wide))
-		}
-		evals.Add(int64(len(data)))
+		evals.Add(int64(2 * len(data)))
 		agg[0].Add(int64(st.leftEdge))
 		agg[1].Add(int64(st.rightEdge))
 		agg[2].Add(int64(st.staleIn))
 		agg[4].Add(int64(st.shifted))
-		r.SampleAt(i2, func() any {
+		r.SampleAt(i, func() any {
 			se := data[len(data)/2]
 			var s2 c28Stats
 			return map[string]any{"query": c.expr(), "case": c, "series_in_storage": len(data), "example_series": se,
-				"example_expected": pr_PointsString(c.expect(se.Samples, &s2)), "example_got": pr_PointsString(res.Series[se.ID])}
+				"example_expected": pr_PointsString(c.expect(se.Samples, &s2)), "example_got": pr_PointsString(ress[0].Series[se.ID]),
+				"example_got_storage_ignoring_bounds": pr_PointsString(ress[1].Series[se.ID])}
 		})
 	})
 	r.Count("evaluations", int(evals.Load()))
